@@ -1267,6 +1267,171 @@ theorem runMatch_general (env : EnumEnv) (ty : Ty) (arms : List Pat) (v : Val) (
     rw [List.getD_eq_getElem?_getD, List.getElem?_map, hx]; rfl
   rw [this]
 
+/-! ## `let` / `var` / `for` after D103: bind under the first combination that matches -/
+
+theorem armPasses_ne_nil (env : EnumEnv) (ty : Ty) (a : Nat) (p : Pat) (fuel pass : Nat) (D : List Path)
+    (h : 1 ≤ fuel) : armPasses env ty a p fuel pass D ≠ [] := by
+  cases fuel with
+  | zero => omega
+  | succ f => simp only [armPasses]; split <;> simp
+
+theorem letBodies_labels (env : EnumEnv) (ty : Ty) (p : Pat) (k : Nat) (L : List (List Path × List Instr)) :
+    ∀ l ∈ labelsOf (letBodies env ty p k L), l.path = [] ∧ 100 ≤ l.kind := by
+  induction L generalizing k with
+  | nil => simp [letBodies]
+  | cons x L ih =>
+    obtain ⟨D, c⟩ := x
+    intro l hl
+    simp only [letBodies, labelsOf_append, labelsOf, bind_nolabels, List.nil_append, List.cons_append,
+      List.mem_cons] at hl
+    rcases hl with hl | hl
+    · subst hl; simp [lblArm]
+    · exact ih _ l hl
+
+/-- entering the bodies in running mode (after the untested last combination was bound): leave -/
+theorem letBodies_running (env : EnumEnv) (ty : Ty) (p : Pat) (k : Nat) (L : List (List Path × List Instr))
+    (stk : List SVal) (locs : List (Nat × SVal)) (tk : Option Nat) :
+    run (letBodies env ty p k L ++ [.label lblEndMatch]) (mk stk locs tk none) = some (mk stk locs tk none) := by
+  cases L with
+  | nil => simp [letBodies, run_cons, step, run_nil]
+  | cons x L =>
+    obtain ⟨D, c⟩ := x
+    simp only [letBodies, List.append_assoc, List.cons_append, List.nil_append]
+    rw [run_cons]; simp only [step, Option.bind]
+    rw [run_cons, step_skip_ne _ _ (by simp [lblArm, lblEndMatch]; omega), Option.bind, run_append,
+      run_skip _ _ _ _ _ (by rw [mem_labelsOf, bind_nolabels]; simp), Option.bind, run_append,
+      run_skip _ _ _ _ _ (by
+        rw [mem_labelsOf]; intro hm
+        have := letBodies_labels env ty p _ _ _ hm
+        simp [lblEndMatch] at this), Option.bind, run_cons, run_skip_label, Option.bind, run_nil]
+
+/-- skipping to `bind_r`: bind under combination `r`, then leave -/
+theorem letBodies_skip (env : EnumEnv) (ty : Ty) (p : Pat) (v : Val) (ht : patTyped env p ty = true)
+    (hv : hasTy env v ty = true) (hnv : ty.isVoid = false) (L : List (List Path × List Instr)) (k r : Nat)
+    (D : List Path) (c : List Instr) (hx : L[r]? = some (D, c)) (hm : pmatch (resolveP env [0] ty p D) v = true)
+    (stk : List SVal) (locs : List (Nat × SVal)) (tk : Option Nat) :
+    run (letBodies env ty p k L ++ [.label lblEndMatch])
+      (mk (repr env ty v :: stk) locs tk (some (lblArm (k + r)))) =
+      some (mk stk ((bindingsOf env ty (resolveP env [0] ty p D) v).reverse ++ locs) tk none) := by
+  induction L generalizing k r with
+  | nil => simp at hx
+  | cons y L ih =>
+    obtain ⟨D', c'⟩ := y
+    simp only [letBodies, List.append_assoc, List.cons_append, List.nil_append]
+    rw [run_cons, step_skip_ne _ _ (by simp), Option.bind, run_cons]
+    cases r with
+    | zero =>
+      simp only [List.getElem?_cons_zero, Option.some.injEq, Prod.mk.injEq] at hx
+      obtain ⟨rfl, rfl⟩ := hx
+      simp only [Nat.add_zero, run_skip_label, Option.bind]
+      rw [run_append]
+      have hb := bind_ok env p [0] ty D' v stk locs tk ht hv hm
+      rw [slot_nonvoid env v hnv, List.singleton_append] at hb
+      rw [hb, Option.bind]
+      exact letBodies_running env ty p _ L stk _ tk
+    | succ r =>
+      have hne : Instr.label (lblArm k) ≠ Instr.label (lblArm (k + (r + 1))) := by simp [lblArm]
+      rw [step_skip_ne _ _ hne, Option.bind, run_append,
+        run_skip _ _ _ _ _ (by rw [mem_labelsOf, bind_nolabels]; simp), Option.bind]
+      have := ih (k + 1) r (by simpa using hx)
+      rw [show k + 1 + r = k + (r + 1) by omega] at this
+      exact this
+
+/-- **`bind_irrefutable_pat`**: the variables are bound under the first combination of or-pattern
+    alternatives that matches the value (combinations in the order of the arm loop), the value is
+    consumed and nothing else is touched -/
+theorem runLet_general (env : EnumEnv) (ty : Ty) (p : Pat) (v : Val) (stk : List SVal)
+    (hnv : ty.isVoid = false) (ht : patTyped env p ty = true) (hv : hasTy env v ty = true)
+    (r : Nat) (D : List Path) (c : List Instr)
+    (hr : (armPasses env ty 0 p (2 ^ orCount p) 0 []).findIdx? (fun x => pmatch (resolveP env [0] ty p x.1) v) = some r)
+    (hx : (armPasses env ty 0 p (2 ^ orCount p) 0 [])[r]? = some (D, c)) :
+    runLet env ty p v stk = some ((bindingsOf env ty (resolveP env [0] ty p D) v).reverse, stk) := by
+  obtain ⟨hrlt, hrm, hrmin⟩ := List.findIdx?_eq_some_iff_getElem.1 hr
+  have hxe : (armPasses env ty 0 p (2 ^ orCount p) 0 [])[r] = (D, c) := by
+    rw [List.getElem?_eq_getElem hrlt] at hx; exact Option.some.inj hx
+  have hm : pmatch (resolveP env [0] ty p D) v = true := by rw [hxe] at hrm; exact hrm
+  have hne := armPasses_ne_nil env ty 0 p (2 ^ orCount p) 0 [] (Nat.one_le_two_pow)
+  have hwf := armPasses_wf env ty [p] 0 (by simp) (2 ^ orCount p) 0 []
+  simp only [List.getD_cons_zero] at hwf
+  unfold runLet letCode
+  simp only [hnv, Bool.false_eq_true, if_false, Bool.or_false]
+  generalize hP : armPasses env ty 0 p (2 ^ orCount p) 0 [] = P at *
+  rcases List.eq_nil_or_concat P with hnil | ⟨init, last, hcat⟩
+  · exact absurd hnil hne
+  · rw [List.concat_eq_append] at hcat
+    subst hcat
+    obtain ⟨Dl, cl⟩ := last
+    by_cases hone : init = []
+    · -- a single combination
+      subst hone
+      have hr0 : r = 0 := by simp at hrlt; omega
+      subst hr0
+      simp only [List.nil_append, List.getElem_cons_zero, Prod.mk.injEq] at hxe
+      obtain ⟨rfl, rfl⟩ := hxe
+      simp only [List.nil_append, List.length_singleton, beq_self_eq_true, if_true, List.head?_cons,
+        Option.map_some, Option.getD_some]
+      have hb := bind_ok env p [0] ty Dl v stk [] none ht hv hm
+      rw [slot_nonvoid env v hnv, List.singleton_append] at hb
+      rw [show ({ stack := repr env ty v :: stk, locals := [], taken := none, skip := none } : St) =
+        mk (repr env ty v :: stk) [] none none from rfl, hb]
+      simp
+    · have hlen : ((init ++ [(Dl, cl)]).length == 1) = false := by
+        cases init with
+        | nil => exact absurd rfl hone
+        | cons _ _ => simp
+      simp only [hlen, Bool.false_eq_true, if_false, List.dropLast_concat, List.getLast?_concat, Option.map_some,
+        Option.getD_some, List.append_assoc]
+      rw [List.map_append, wfPasses_append] at hwf
+      have hcmp := comparePhase env ty [p] v hv hnv (by simpa using ht) (init.map (fun c => ((0 : Nat), c))) 0 hwf.1
+        stk [] none
+      have hflat : (init.map (fun c => ((0 : Nat), c))).flatMap (fun x => x.2.2) = init.flatMap (fun x => x.2) := by
+        simp [List.flatMap_map]
+      have hfind : (init.map (fun c => ((0 : Nat), c))).findIdx? (fun x => pmatch (passPat env ty [p] x) v) =
+          init.findIdx? (fun x => pmatch (resolveP env [0] ty p x.1) v) := by
+        rw [List.findIdx?_map]; rfl
+      rw [hflat, hfind] at hcmp
+      rw [show ({ stack := repr env ty v :: stk, locals := [], taken := none, skip := none } : St) =
+        mk (repr env ty v :: stk) [] none none from rfl, run_append, hcmp]
+      rw [List.findIdx?_append] at hr
+      by_cases hin : r < init.length
+      · -- one of the tested combinations
+        have hfi : init.findIdx? (fun x => pmatch (resolveP env [0] ty p x.1) v) = some r := by
+          cases hf : init.findIdx? (fun x => pmatch (resolveP env [0] ty p x.1) v) with
+          | some r' => rw [hf] at hr; simpa using hr
+          | none =>
+            rw [hf] at hr
+            simp only [Option.none_or, Option.map_eq_some_iff] at hr
+            obtain ⟨j, _, hj⟩ := hr; omega
+        rw [hfi]
+        simp only [Option.bind, Nat.zero_add]
+        rw [run_append, run_skip _ _ _ _ _ (by rw [mem_labelsOf, bind_nolabels]; simp), Option.bind]
+        have hxi : init[r]? = some (D, c) := by
+          rw [List.getElem?_append_left hin] at hx; exact hx
+        have := letBodies_skip env ty p v ht hv hnv init 0 r D c hxi hm stk [] none
+        simp only [Nat.zero_add] at this
+        rw [this]; simp
+      · -- the untested last one
+        have hrl : r = init.length := by simp at hrlt; omega
+        have hfi : init.findIdx? (fun x => pmatch (resolveP env [0] ty p x.1) v) = none := by
+          cases hf : init.findIdx? (fun x => pmatch (resolveP env [0] ty p x.1) v) with
+          | none => rfl
+          | some r' =>
+            rw [hf] at hr
+            have := List.findIdx?_eq_some_iff_getElem.1 hf
+            obtain ⟨h1, _, _⟩ := this
+            simp at hr; omega
+        rw [hfi]
+        simp only [Option.bind]
+        have hlast : (Dl, cl) = (D, c) := by
+          subst hrl
+          simpa using hxe
+        obtain ⟨rfl, rfl⟩ := Prod.mk.inj hlast
+        rw [run_append]
+        have hb := bind_ok env p [0] ty Dl v stk [] none ht hv hm
+        rw [slot_nonvoid env v hnv, List.singleton_append] at hb
+        rw [hb, Option.bind, letBodies_running]
+        simp
+
 /-! ## Or-chains `a | b | c` of or-free alternatives -/
 
 /-- the alternatives of a right-nested or-chain (the parser builds `a | (b | c)`) -/
@@ -1634,5 +1799,44 @@ theorem runMatch_chain (env : EnumEnv) (ty : Ty) (arms : List Pat) (v : Val) (st
   refine ⟨r, ?_⟩
   rw [runMatch_general env ty arms v stk hnv harms hv r x (by simpa [Function.comp_def] using h1) hx, hx1, hx2,
     h3 env ty]
+
+/-- `let` / `for` on an or-chain of or-free alternatives: bound through the first alternative that
+    matches, i.e. exactly what the pattern binds as a match arm -/
+theorem runLet_chain (env : EnumEnv) (ty : Ty) (p : Pat) (v : Val) (stk : List SVal)
+    (hnv : ty.isVoid = false) (ht : patTyped env p ty = true) (hch : isChain p)
+    (hv : hasTy env v ty = true) (hm : pmatch p v = true) :
+    runLet env ty p v stk = some ((bindingsOf env ty p v).reverse, stk) := by
+  have hfuel : (alts p).length ≤ 2 ^ orCount p := by
+    have := orCount_chain hch
+    have h2 : orCount p < 2 ^ orCount p := Nat.lt_two_pow_self
+    omega
+  have hmap := armPasses_chain env ty [p] 0 p (by simp) hch (alts p).length 0 0 (2 ^ orCount p) []
+    (by simp) (by have := alts_ne_nil p; cases h : alts p <;> simp_all) hfuel (by intro k; simp)
+  simp only [List.drop_zero] at hmap
+  -- the first alternative that matches
+  have hany : (alts p).any (fun q => pmatch q v) = true := by rw [← pmatch_alts]; exact hm
+  obtain ⟨q0, hq0, hq0m⟩ := List.any_eq_true.1 hany
+  cases hf : (alts p).findIdx? (fun q => pmatch q v) with
+  | none => exact absurd hq0m (by simpa using List.findIdx?_eq_none_iff.1 hf q0 hq0)
+  | some i =>
+    obtain ⟨hi, _, _⟩ := List.findIdx?_eq_some_iff_getElem.1 hf
+    have hlen : (armPasses env ty 0 p (2 ^ orCount p) 0 []).length = (alts p).length := by
+      rw [← hmap]; simp
+    have hi' : i < (armPasses env ty 0 p (2 ^ orCount p) 0 []).length := by omega
+    have hfp : (armPasses env ty 0 p (2 ^ orCount p) 0 []).findIdx?
+        (fun x => pmatch (resolveP env [0] ty p x.1) v) = some i := by
+      have : (alts p).findIdx? (fun q => pmatch q v) =
+          (armPasses env ty 0 p (2 ^ orCount p) 0 []).findIdx? (fun x => pmatch (resolveP env [0] ty p x.1) v) := by
+        rw [← hmap, List.findIdx?_map]; rfl
+      rw [← this]; exact hf
+    have hres : resolveP env [0] ty p (armPasses env ty 0 p (2 ^ orCount p) 0 [])[i].1 = (alts p)[i] := by
+      have := congrArg (fun l => l[i]?) hmap
+      simp only [List.getElem?_map, List.getElem?_eq_getElem hi', List.getElem?_eq_getElem hi, Option.map_some,
+        Option.some.injEq] at this
+      exact this
+    have hgen := runLet_general env ty p v stk hnv ht hv i
+      (armPasses env ty 0 p (2 ^ orCount p) 0 [])[i].1 (armPasses env ty 0 p (2 ^ orCount p) 0 [])[i].2 hfp
+      (List.getElem?_eq_getElem hi')
+    rw [hgen, hres, bindingsOf_alts env ty p v i _ hf (List.getElem?_eq_getElem hi)]
 
 end Abra.PatCompile
